@@ -98,6 +98,11 @@ type DecimateState struct {
 // ConfigurePulseLengths sets this stream's pulse length and # of presamples.
 // Also removes any existing projectors and basis.
 func (dsp *DataStreamProcessor) ConfigurePulseLengths(nsamp, npre int) error {
+	// Refuse lengths that the active edge-multi trigger cannot work with BEFORE changing anything:
+	// a refused request must leave the stream as it was (the trigger would index outside its data).
+	if err := dsp.checkPulseLengths(nsamp, npre); err != nil {
+		return err
+	}
 	// if nsamp or npre is invalid, panic, do not silently ignore
 	if dsp.NSamples != nsamp || dsp.NPresamples != npre {
 		dsp.removeProjectorsBasis()
@@ -116,8 +121,26 @@ func (dsp *DataStreamProcessor) ConfigurePulseLengths(nsamp, npre int) error {
 	return nil
 }
 
+// checkPulseLengths tells whether the stream's current trigger settings allow the given record lengths.
+func (dsp *DataStreamProcessor) checkPulseLengths(nsamp, npre int) error {
+	trial := dsp.EMTState
+	trial.nsamp = int32(nsamp)
+	trial.npre = int32(npre)
+	if dsp.EdgeMulti && !trial.valid() {
+		return fmt.Errorf("dsp.EMTState in invalid")
+	}
+	return nil
+}
+
 // ConfigureTrigger sets this stream's trigger state.
 func (dsp *DataStreamProcessor) ConfigureTrigger(state TriggerState) error {
+	// Validate edge-multi settings before storing them: a refused request must not change the stream.
+	trial := state.EMTState
+	trial.nsamp = int32(dsp.NSamples)
+	trial.npre = int32(dsp.NPresamples)
+	if state.EdgeMulti && !trial.valid() {
+		return fmt.Errorf("dsp.EMTState in invalid")
+	}
 	dsp.TriggerState = state
 	dsp.LastTrigger = math.MinInt64 / 4 // forget the Last Trigger, so that all channels will auto trigger
 	// at the same starting point when you send new trigger settings
